@@ -84,6 +84,9 @@ def gen(ctx, deep):
             jobs.append((cfg0, [("addmany", "g", bad), ("load", None)]))
             jobs.append((cfg0, [("add", "g", G[1]), ("addmany", "g", bad), ("load", None)]))
         jobs.append((cfg0, [("add", "g", short), ("load", None)]))
+        # reloading the MODEL must leave the auto-save flag alone
+        for a in ops[:12]:
+            jobs.append((ec.Config(shape, adapter=True, watcher=None, initial=inits[1]), [("autosave", False), ("loadmodel",), ("load", None), a]))
         # the async enforcer has its own copies of the internal paths
         acfg = ec.Config(shape, adapter=True, watcher=None, initial=inits[1], is_async=True)
         for a in ops:
